@@ -85,6 +85,20 @@ impl Monitor for Mon {
         match s.act {
             Act::Open { t, v, .. } | Act::Close { t, v, .. } => {
                 let mut viol = None;
+                // the rule speaks of blocks in which a liquidation happened on the vAMM: in any other block the engine's own
+                // refusal "Only one action allowed" shows the rule biting where it has no business (the message is only used to
+                // recognise that it was this rule that refused; a refusal for any other reason is not judged)
+                if !s.res.ok && !self.liq_this_block[*v] && s.res.err.contains("Only one action allowed") {
+                    out.count("restriction_refusals_without_liquidation");
+                    return Some(
+                        Violation::new(
+                            "unrestricted_trader_blocked",
+                            format!("{} by {} is refused with 'Only one action allowed' although no liquidation happened on vamm {} in this block", s.act.name(), w.traders[*t], v),
+                        )
+                        .with("act", s.act.name())
+                        .with("role", "no_liquidation_in_block"),
+                    );
+                }
                 match self.role {
                     "restricted" => {
                         self.restricted_attempts += 1;
